@@ -50,6 +50,14 @@ def build(x):
             c.curve_shape = num(p[2])
             evs.append(c)
         return ce.Envelope(evs)
+    if kind == "T" and int(x[-1][0]) == 0 and os.environ.get("VERIF_T_FROM_EVENTS") != "1":
+        # the documented constructor: a list of [absolute time, bpm, curve shape] points with plain numbers
+        # (the point-list route goes through FlexTempo's own parameter normalisation)
+        pts, t0 = [], 0
+        for p in x[1:]:
+            pts.append([t0 / TICK, num(p[1]), num(p[2])])
+            t0 += int(p[0])
+        return cp.FlexTempo(pts)
     if kind == "T":
         t = cp.FlexTempo([])
         for p in x[1:]:
@@ -372,10 +380,40 @@ def op_grid(orig, r, op):
     return rows
 
 
+def followup(r):
+    """the envelope returned by an operation is an envelope like any other: adding a control point one beat after its end
+    must create a point exactly there (an event object held twice by the result makes the point land elsewhere)"""
+    try:
+        n = len(r)
+        t = ticks(r.duration) + TICK
+        shared = len(set(map(id, r))) != n
+        r.sample_at(t / TICK)
+        times = [ticks(x) for x in r.absolute_time_tuple]
+        if t in times and ticks(r.duration) == t and len(r) == n + 1:
+            return [["followup", "shared-event-object" if shared else "ok"]]
+        return [["followup", "misplaced", t, times, "shared-event-object" if shared else "distinct-objects"]]
+    except Exception as exc:  # noqa
+        return [["followup", "raised", type(exc).__name__]]
+
+
 def run(case):
     k = case[0]
     if k == "envq":
-        e = build(case[1])
+        if case[-1] and case[-1][0] == "prelude":
+            # history stream: the envelope first has other control points, answers the same questions, and is then edited
+            # IN PLACE (same event objects) into the envelope of the case; the answers below must be those of the edited one
+            qs = case[2:-1]
+            e = build(case[-1][1])
+            for q in qs:
+                if q[0] != "simpson":
+                    query(e, q)
+            for ev, p in zip(e, case[1][1:]):
+                e.apply_parameter_on_event(ev, e.value_to_parameter(num(p[1])))
+                e.apply_curve_shape_on_event(ev, num(p[2]))
+                ev.duration = int(p[0]) / TICK
+            case = case[:-1]
+        else:
+            e = build(case[1])
         before = snap(e)
         out = ["envq"]
         changed = None
@@ -437,7 +475,8 @@ def run(case):
                 raise ValueError(op)
         except Exception as exc:  # noqa
             return err(exc)
-        return ["ok", snap(r), ["grid"] + op_grid(build(case[1]), r, op)]
+        out = ["ok", snap(r), ["grid"] + op_grid(build(case[1]), r, op)]
+        return out + followup(r)
     if k == "of_points":
         pts = [[int(p[0]) / TICK, num(p[1]), num(p[2])] for p in case[1]]
         return snap(ce.Envelope(pts))
